@@ -1093,7 +1093,7 @@ fn render_trace(items: &[TraceItem]) -> G {
     g
 }
 
-fn abstract_arg(e: &Expr) -> String {
+fn abstract_arg(e: &Expr, fmt: bool) -> String {
     match e {
         Expr::Lit(l) => match &l.lit {
             Lit::Str(s) => s.value(),
@@ -1101,8 +1101,16 @@ fn abstract_arg(e: &Expr) -> String {
             Lit::Bool(b) => b.value.to_string(),
             _ => "?".into(),
         },
-        Expr::Reference(r) => abstract_arg(&r.expr),
-        Expr::Paren(p) => abstract_arg(&p.expr),
+        Expr::Reference(r) => abstract_arg(&r.expr, fmt),
+        Expr::Paren(p) => abstract_arg(&p.expr, fmt),
+        // `format!("LITERAL_{x}")`: the literal text
+        Expr::Macro(m) if fmt && m.mac.path.is_ident("format") => match m.mac.parse_body_with(syn::punctuated::Punctuated::<Expr, syn::Token![,]>::parse_terminated) {
+            Ok(args) => match args.first() {
+                Some(Expr::Lit(syn::ExprLit { lit: Lit::Str(s), .. })) => s.value(),
+                _ => "?".into(),
+            },
+            Err(_) => "?".into(),
+        },
         // a constructor-like call without arguments: `Stdio::null()`
         Expr::Call(c) if c.args.is_empty() => match &*c.func {
             Expr::Path(p) if p.path.segments.len() >= 2 => {
@@ -1119,6 +1127,10 @@ struct TraceCx {
     recvs: BTreeSet<String>,
     inline: Vec<String>,
     stack: Vec<String>,
+    /// the request's `opaque_conditions`
+    opaque_conds: bool,
+    /// the boolean inputs created for conditions that do not translate
+    conds: Vec<String>,
 }
 
 impl TraceCx {
@@ -1257,7 +1269,7 @@ impl<'u> Tr<'u> {
                             return Ok(items);
                         }
                     }
-                    return Ok(vec![TraceItem::Event(name, args.iter().map(|a| abstract_arg(a)).collect())]);
+                    return Ok(vec![TraceItem::Event(name, args.iter().map(|a| abstract_arg(a, cx.opaque_conds)).collect())]);
                 }
                 // a chain: the calls nearer to the object come first
                 let mut out = self.trace_expr(&m.receiver, env, cx)?;
@@ -1269,7 +1281,7 @@ impl<'u> Tr<'u> {
                     && matches!(&*m.receiver, Expr::MethodCall(_))
                     && chain_root(&m.receiver).map(|r| cx.is_recv(r)).unwrap_or(false)
                 {
-                    out.push(TraceItem::Event(m.method.to_string(), args.iter().map(|a| abstract_arg(a)).collect()));
+                    out.push(TraceItem::Event(m.method.to_string(), args.iter().map(|a| abstract_arg(a, cx.opaque_conds)).collect()));
                     return Ok(out);
                 }
                 for a in &m.args {
@@ -1278,6 +1290,17 @@ impl<'u> Tr<'u> {
                 Ok(out)
             }
             Expr::If(_) | Expr::Match(_) => self.trace_branching(e, env, cx),
+            Expr::ForLoop(fl) if cx.opaque_conds => {
+                // calls made in a loop: once, marked `*` (any number of times, in this order per turn)
+                let inner = self.trace_block(&fl.body.stmts, env, cx)?;
+                if inner.is_empty() {
+                    return Ok(vec![]);
+                }
+                match only_events(&inner) {
+                    Some(evs) => Ok(evs.into_iter().map(|(m, a)| TraceItem::Event(format!("*{m}"), a)).collect()),
+                    None => self.err(e.span(), "calls on the object under a condition inside a `for` loop"),
+                }
+            }
             _ => Ok(vec![]),
         }
     }
@@ -1353,6 +1376,19 @@ impl<'u> Tr<'u> {
                 let mut merged = first.clone();
                 for b in &evs[1..] {
                     if b.len() != first.len() || b.iter().zip(&first).any(|(x, y)| x.0 != y.0 || x.1.len() != y.1.len()) {
+                        if cx.opaque_conds && branches.len() == 2 && matches!(e, Expr::If(_)) {
+                            // the condition is an input of the generated definition
+                            let c = format!("c{}", cx.conds.len() + 1);
+                            cx.conds.push(c.clone());
+                            self.notes.push(format!(
+                                "{}:{}: the condition of this `if` is not translated ({}): it is the boolean input `{c}` of the generated definition",
+                                self.cur_file,
+                                e.span().start().line,
+                                cond_err.msg
+                            ));
+                            let g = G::If(Box::new(raw(c)), Box::new(render_trace(&branches[0])), Box::new(render_trace(&branches[1])));
+                            return Ok(vec![TraceItem::Cond(g)]);
+                        }
                         return self.err(
                             e.span(),
                             format!(
@@ -1526,12 +1562,15 @@ impl<'u> Tr<'u> {
         let mut binders = Vec::new();
         self.declare_params(rq, self_ty.as_deref(), &mut env, &mut binders)?;
         self.cur_file = self.u.files[file].clone();
-        let mut cx = TraceCx { recvs: rq.receivers.iter().cloned().collect(), inline: rq.inline.clone(), stack: vec![format!("{}@{}:{}", rq.item.rsplit("::").next().unwrap_or(""), self.u.files[file], _sig.ident.span().start().line)] };
+        let mut cx = TraceCx { recvs: rq.receivers.iter().cloned().collect(), inline: rq.inline.clone(), stack: vec![format!("{}@{}:{}", rq.item.rsplit("::").next().unwrap_or(""), self.u.files[file], _sig.ident.span().start().line)], opaque_conds: rq.opaque_conditions, conds: Vec::new() };
         let items = self.trace_block(&body.stmts, &env, &mut cx)?;
         if items.is_empty() {
             return self.err(sp, format!("no call on {} in `{}`", rq.receivers.join(" / "), rq.item));
         }
         let g = render_trace(&items);
+        for c in &cx.conds {
+            binders.push(format!("({c} : bool)"));
+        }
         let text = format!("Definition {name} {} : list (string * list string) :=\n  {}.", binders.join(" "), g.render(2));
         let origin = format!("{}:{} calls on {} in fn {} {}", self.u.files[file], body.span().start().line, rq.receivers.join(" / "), rq.item, tok_hash(body));
         self.notes.push(format!(
